@@ -66,6 +66,17 @@ func genC02(seed uint64, tier string) *plan.Plan {
 				d = 0
 			}
 			pl.Ops = append(pl.Ops, plan.Op{K: "adv", A: int64(d)})
+		case x < 10 && !udp && r.IntN(3) == 0 && len(idxVarString) > 0:
+			// a message sized around the 65535 limit (needs a template with a variable-length element)
+			slot := nT
+			if nT < 6 {
+				pl.Ops = append(pl.Ops, plan.Op{K: "tmpl", A: int64(slot), N: []int64{idxVarString[r.IntN(len(idxVarString))], idxSmall[r.IntN(len(idxSmall))]}})
+				sizes = append(sizes, 2)
+				nT++
+				op := plan.Op{K: "data", A: int64(slot), B: 1, C: int64(r.Uint64() >> 1), D: 20}
+				op.F = []plan.Op{{K: "size", A: int64(65519 + r.IntN(22))}}
+				pl.Ops = append(pl.Ops, op)
+			}
 		case x < 10:
 			pl.Ops = append(pl.Ops, plan.Op{K: "dataunk", A: int64(9 + r.IntN(3)), B: int64(r.IntN(nT+1) - 1), C: int64(r.Uint64() >> 1)})
 		case x < 11:
